@@ -254,6 +254,14 @@ WORD: /\p{Lu}\p{Ll}*/
 NUM: /\p{Nd}+/
 %ignore " "
 '''
+G_INDENT = r'''
+start: stmt+
+stmt: NAME _NL | NAME ":" _NL _INDENT stmt+ _DEDENT
+%declare _INDENT _DEDENT
+NAME: /[a-z]+/
+_NL: /(\r?\n[\t ]*)+/
+%ignore " "
+'''
 G_UNLESS = r'''
 start: (KW | OTHER | NAME | NUM)+
 KW: "while"
@@ -311,6 +319,9 @@ def corpus():
     c.append(('lines', G_LINES, [{}], ['ab cd\n# c\nef\n', 'ab\r\ncd\n', 'ab\n\ncd', '# only', 'a\n b \n#\n?'], ['start']))
     c.append(('unless', G_UNLESS, [{}], ['while for whiles 12 x', 'for while', 'while!'], ['start']))
     c.append(('regexmod', G_REGEXMOD, [{'regex': True}], ['Ab Cde 12', 'Ab cd', 'Xy 7Zz', 'a'], ['start']))
+    c.append(('indent', G_INDENT, [{'postlex': '@indenter'}], ['a\nb:\n  c\n  d:\n    e\nf\n', 'a:\n  b\n c\n', 'a\n', 'a:\nb\n', 'a b\n'],
+              ['start']))
+    c.append(('callbacks', G_UNLESS, [{'lexer_callbacks': '@upper'}], ['while for whiles 12 x', 'for while', 'while!'], ['start']))
     c.append(('many', g_many_terminals(), [{}], ['kw0x kw119x abc kw12x 77', 'kw5x kw5 kw55x', 'kw1x ?', 'kw118xkw3x'], ['start']))
     n = 120
     k = n // 3
@@ -443,9 +454,39 @@ def make_probes(rng, samples, starts, extra, nmut):
 
 
 # ----------------------------------------------------------------------------------------------- variants
+def cb_upper(tok):
+    """a lexer callback (module level, so that Lark.save can pickle the options)"""
+    return tok.update(value=tok.value.upper())
+
+
+def indenter_class():
+    """a PostLex (module-level class so that it can be pickled); created lazily because lark is imported lazily"""
+    if 'TreeIndenter' not in globals():
+        from lark.indenter import Indenter
+        cls = type('TreeIndenter', (Indenter,), dict(NL_type='_NL', OPEN_PAREN_types=[], CLOSE_PAREN_types=[],
+                                                     INDENT_type='_INDENT', DEDENT_type='_DEDENT', tab_len=8,
+                                                     __module__=__name__, __qualname__='TreeIndenter'))
+        globals()['TreeIndenter'] = cls
+    return globals()['TreeIndenter']
+
+
+def resolve(opts):
+    """option dicts stay JSON-able: objects are written as sentinels and created here"""
+    o = dict(opts)
+    if o.get('postlex') == '@indenter':
+        o['postlex'] = indenter_class()()
+    if o.get('lexer_callbacks') == '@upper':
+        o['lexer_callbacks'] = {'NAME': cb_upper}
+    return o
+
+
+def has_objects(opts):
+    return 'postlex' in opts or 'lexer_callbacks' in opts
+
+
 def build(grammar, opts):
     from lark import Lark
-    return Lark(grammar, parser='lalr', **opts)
+    return Lark(grammar, parser='lalr', **resolve(opts))
 
 
 def variant_load(p):
@@ -460,10 +501,10 @@ def variant_cache(grammar, opts, path):
     from lark import Lark
     if os.path.exists(path):
         os.remove(path)
-    first = Lark(grammar, parser='lalr', cache=path, **opts)
+    first = Lark(grammar, parser='lalr', cache=path, **resolve(opts))
     if not os.path.exists(path):
         raise RuntimeError('no cache file written')
-    second = Lark(grammar, parser='lalr', cache=path, **opts)
+    second = Lark(grammar, parser='lalr', cache=path, **resolve(opts))
     loaded = not hasattr(second, 'grammar')       # a loaded instance never ran load_grammar
     return first, second, loaded
 
@@ -692,18 +733,12 @@ def coq_cases_for(p, grammar, opts, idx, kws, with_table):
     cases, labels = [], []
     inst = nm.intern('inst', E.instance(p, nm, opq))
     allowed = sorted(_LOAD_ALLOWED_OPTIONS)
-    f = io.BytesIO()
-    p.save(f)
-    f.seek(0)
-    d = pickle.load(f)
+    d = saved_dict(p)
     dv, mv = nm.intern('data', E.value(d['data'], opq)), nm.intern('memo', E.value(d['memo'], opq))
     cases.append('CSave %s [] %s %s' % (inst, dv, mv))
     labels.append('save')
     # the cache path writes save(f, _LOAD_ALLOWED_OPTIONS): same dict, options filtered
-    f = io.BytesIO()
-    p.save(f, allowed)
-    f.seek(0)
-    d2 = pickle.load(f)
+    d2 = saved_dict(p, allowed)
     same = dict(d2['data'])
     same['options'] = d['data']['options']
     if same != d['data'] or d2['memo'] != d['memo'] or list(d2['data']) != list(d['data']):
@@ -728,6 +763,20 @@ def coq_cases_for(p, grammar, opts, idx, kws, with_table):
     cases.append('CBuild %s %s %s' % (E.gpart(p, nm), nm.intern('opts', E.options(p.options.options, opq)), inst))
     labels.append('build')
     return nm.defs, cases, labels
+
+
+def saved_dict(p, excl=()):
+    """the object Lark.save hands to pickle.dump, captured before pickling (pickle copies pass-through objects,
+    the export numbers them by identity)"""
+    import lark.lark as LL
+    box = []
+    real = LL.pickle.dump
+    LL.pickle.dump = lambda obj, f, protocol=None: box.append(obj)
+    try:
+        p.save(io.BytesIO(), excl)
+    finally:
+        LL.pickle.dump = real
+    return box[0]
 
 
 def run_coq_jobs(ctx, jobs):
@@ -764,8 +813,8 @@ def correspond(ctx):
     n_opt = ctx.scale(2, 4) * widen
     n_rand = ctx.scale(14, 100) * widen
     n_mut = ctx.scale(2, 5)
-    n_sa = ctx.scale(8, 30) * widen          # stand-alone modules (each plain + compress)
-    n_coq = ctx.scale(14, 60) * widen
+    n_sa = ctx.scale(10, 40) * widen          # stand-alone modules (each plain + compress)
+    n_coq = ctx.scale(22, 80) * widen
 
     combos = []        # (name, grammar, opts, probes)
     for name, g, bases, samples, starts in corpus():
@@ -786,6 +835,26 @@ def correspond(ctx):
         inputs = random_inputs(rng, frags, 10)
         combos.append(('rand%d' % tried, g, opts, make_probes(rng, inputs, ['start'], [], 0)))
 
+    # which combinations are also evaluated by the Coq model / turned into stand-alone modules: spread over the corpus
+    by_name = {}
+    for i, c in enumerate(combos):
+        by_name.setdefault(c[0], []).append(i)
+    fixed = [n for n in by_name if not n.startswith('rand')]
+    rands = [n for n in by_name if n.startswith('rand')]
+    coq_sel, sa_sel = set(), set()
+    for n in fixed:
+        if n != 'many':
+            coq_sel.update(by_name[n] if (ctx.thorough() or ctx.widen) else by_name[n][:1])
+    for n in rands[:max(0, n_coq - len(coq_sel))][:ctx.scale(4, 40)]:
+        coq_sel.update(by_name[n])
+    sa_ok = [n for n in fixed if not has_objects(combos[by_name[n][0]][2]) and n != 'regexmod']
+    must = [n for n in ('template', 'f20', 'bytes', 'multistart') if n in sa_ok]
+    rest = [n for n in sa_ok if n not in must]
+    chosen = sa_ok if (ctx.thorough() or ctx.widen) else must + rng.sample(rest, max(0, min(len(rest), n_sa - len(must) - 2)))
+    for n in chosen:
+        sa_sel.update(by_name[n] if ctx.thorough() else by_name[n][-1:])
+    for n in rands[:ctx.scale(2, 12)]:
+        sa_sel.update(by_name[n])
     coq_jobs, sa_jobs, sa_meta = [], [], []
     traced = 0
     for ci, (name, g, opts, probes) in enumerate(combos):
@@ -910,7 +979,7 @@ def correspond(ctx):
                                   'loaded parser reads %s.%s which Ser/Relevant.v does not declare' % (cls, sorted(extra)))
             ctx.count('relevant-trace', key=(name, str(opts)), nontrivial=True)
         # --- Coq: the model reproduces what the real serialiser did
-        if len(coq_jobs) < n_coq and exportable(g) and name != 'many':
+        if ci in coq_sel and exportable(g):
             try:
                 allkw = [{'propagate_positions': not p.options.propagate_positions}, {'g_regex_flags': 2, 'debug': True},
                          {'keep_all_tokens': True}, {'maybe_placeholders': False, 'use_bytes': False}, {'start': 'x'},
@@ -926,9 +995,7 @@ def correspond(ctx):
                                                         'exception': traceback.format_exc()[-600:]}, False,
                               'exporting the original / loaded object graph raised %s: %s' % (type(e).__name__, e))
         # --- stand-alone
-        want_sa = len(sa_jobs) < 2 * n_sa and not opts.get('g_regex_flags') and \
-            (not name.startswith('rand') or rng.random() < 0.3)
-        if want_sa:
+        if ci in sa_sel and not opts.get('g_regex_flags') and len(sa_jobs) < 2 * n_sa:
             eq = standalone_equiv_opts(opts)
             try:
                 pe = build(g, eq)
